@@ -206,11 +206,13 @@ class InternalCompiler(Compiler):
             qc.x(iret)
             return iret
 
-        # 1. Compile the expression
+        # 1. Compile the expression (an operand that was already computed may still be in use
+        # elsewhere: it cannot be negated in place)
+        was_computed = expr.args[0] in self.expqmap
         eret = self.compile_expr(qc, expr.args[0])
 
-        # 2. If the expression is on an ancilla, perform the X updating the exp
-        if eret in qc.ancilla_lst:
+        # 2. If the expression is on a fresh ancilla, perform the X updating the exp
+        if eret in qc.ancilla_lst and not was_computed:
             qc.x(eret)
             self.expqmap[expr] = eret
             return eret
